@@ -136,6 +136,6 @@ def finalize(rep, cases, results, tier, seed):
             rep.violation("%s:peak-grows-with-files" % lo["driver"],
                           "peak open descriptors grows with the number of files: %s (driver %s, workers %d, sched %s)"
                           % ({d["n"]: d["peak"] for d in runs}, lo["driver"], lo["workers"], lo["sname"]),
-                          {"case": [c for c in cases if c["group"] == gid][-1]})
+                          {"cases": [c for c in cases if c["group"] == gid]})
         rep.count("groups-compared")
     rep.extra["peak_table"] = table
